@@ -122,7 +122,7 @@ func Load(dir string, overlay map[string][]byte, tags string, patterns []string)
 		}
 	}
 	for _, p := range []string{"encoding/binary", "bytes", "strings", "sort", "container/list", "errors", "math/bits",
-		"unicode/utf8", "math", "unicode", "internal/byteorder", "slices", "cmp", "io"} {
+		"unicode/utf8", "math", "unicode", "internal/byteorder", "slices", "cmp", "io", "internal/stringslite"} {
 		e.allowPkgs[p] = true
 	}
 	for _, p := range []string{"github.com/kubewharf/kubebrain-client/api/v2rpc", "go.etcd.io/etcd/api/v3/etcdserverpb",
@@ -292,6 +292,7 @@ type PathSample struct {
 	Model     map[string]uint64 `json:"model,omitempty"`
 	Observes  []string          `json:"observes,omitempty"`
 	Choices   map[string]int    `json:"choices,omitempty"`
+	Schedule  []string          `json:"schedule,omitempty"`
 	End       string            `json:"end"`
 }
 
@@ -493,6 +494,7 @@ func (x *explorer) merge(res *runResult) {
 			v.Observes = append(v.Observes, o.eval(v.Model))
 		}
 		v.Findings = res.in.findings()
+		v.Schedule = res.in.sch.schedLog
 		for i, c := range r.pc {
 			if i >= 40 {
 				break
@@ -575,6 +577,7 @@ func (e *Engine) execRun(w *worker, fn *ssa.Function, prefix []int64) *runResult
 	// sample: model + observations of completed (or deadlocked) paths
 	if out.end.kind == "done" || out.end.kind == "deadlock" {
 		smp := &PathSample{Decisions: len(r.trace), Kinds: string(r.kinds), Trace: r.trace, End: out.end.kind}
+		smp.Schedule = in.sch.schedLog
 		smp.Choices = map[string]int{}
 		for _, c := range in.chooseLog {
 			smp.Choices[c.Name] = c.Val
